@@ -25,6 +25,8 @@ type vConn struct {
 	dead    bool // a send failed: the connection is gone
 	faults  bool // may sends fail?
 	timeout time.Duration
+	encode  bool // run the real Len/Encode on every sent packet
+	encodeErrors int
 }
 
 func newVConn(faults bool) *vConn {
@@ -40,6 +42,19 @@ func (c *vConn) Send(pkt packet.Generic, async bool) error {
 	if c.faults && vFail("send") {
 		c.dead = true
 		return errVConnFault
+	}
+	if c.encode {
+		// like BaseConn/Encoder: a packet that cannot be encoded fails the send and
+		// closes the carrier
+		buf := make([]byte, pkt.Len())
+		if _, err := pkt.Encode(buf); err != nil {
+			c.encodeErrors++
+			if !c.closed {
+				c.closed = true
+				close(c.closeCh)
+			}
+			return err
+		}
 	}
 	c.sent = append(c.sent, pkt)
 	return nil
